@@ -1023,10 +1023,19 @@ def run(ctx, out):
     reported = {}
     cases = corpus_cases()
     st['corpus_cases'] = len(cases)
-    for _ in range(n):
-        cases.append(gen_case(rng, thorough))
+    for ci in range(n):
+        case = gen_case(rng, thorough)
+        if ci % 4 == 1:
+            # the same case on STATIC classes whose instances are falsy (define __bool__ -> False): a truth-value
+            # test on a model object in commands.py (`if value:` for `if value is not None:`) behaves differently
+            case['render'] = 'static-falsy'
+        cases.append(case)
+    # the hand-written words once more on the falsy rendering
+    cases += [dict(copy.deepcopy(c), render='static-falsy') for c in corpus_cases()[:len(CORPUS)]]
     for case in cases:
         st['cases'] += 1
+        if case.get('render') == 'static-falsy':
+            st['cases_on_falsy_static_rendering'] += 1
         v = evaluate(case)
         stats.update(v.stats)
         word_len[len(case['word'])] += 1
@@ -1094,6 +1103,7 @@ def run(ctx, out):
         'words_cut_at_set_order_dependent_delete_undo': st['words_cut_at_set_order_dependent_delete_undo'],
         'cases_failing_oracle': st['cases_failing_oracle'],
         'corpus_cases': st['corpus_cases'],
+        'cases_on_falsy_static_rendering': st['cases_on_falsy_static_rendering'],
         'undo_redo_checks_passed': nontrivial,
         'oracle_counters': dict(stats),
         'word_lengths': dict(word_len),
@@ -1117,6 +1127,8 @@ def run(ctx, out):
         'nested Compounds are flattened neither by the harness nor by the model (the model has nested compounds)',
         'Delete.undo iterates Python sets (eAllReferences(), _inverse_rels): when model and implementation then differ '
         'only in the order of many-valued references the word is cut there (counted in the coverage)',
+        'every 4th generated case and the hand-written words run a second time on the static-falsy rendering '
+        '(harness/kstatic.py: static classes whose instances define __bool__ returning False), same model, same oracle',
         'Compounds: about half are built from a first member and members acting on what it changes (same slot, the '
         'same element in another owner\'s slot = a move as Remove + Add, the opposite / container end of the element '
         '= Remove + Set as in EMF, Set + Set, Add + Remove); the side condition, "a member would be refused on its '
